@@ -19,7 +19,7 @@ func init() {
 func runC18(r *engine.Run) {
 	r.Rule("ARITH", "every integer + - * / % , every numeric conversion and every call with a panicking precondition (decimal.NewFromFloat) in the hand-written functions of core/currency is discharged by an accepted guard idiom holding on every feasible path (wrap check on an operand, subtrahend<=minuend, post-division check of a product with a non-zero factor, non-zero divisor, sign / NaN / 2^64 rejection before float->uint64, NaN and Inf rejection before NewFromFloat); an instruction with no accepted guard is reported, an unknown operator form is undecided")
 	r.Rule("AGREE-op", "each named helper computes its result with the operator its name promises, on its parameters in order (AddCoin c+b, MinusCoin c-b, MultCoin c*b, DistributeCoin c/d and c%d, the Int64/Float64 variants delegate to them after conversion)")
-	r.Rule("ARG-finite", "every helper taking a float64 reports success (nil error) only by returning the result of another float helper applied to a value computed from that argument, or on paths where math.IsNaN(argument) tested false and the argument is bounded from above (IsInf false or a comparison with a constant): no shortcut returns an amount for NaN or +Inf")
+	r.Rule("ARG-finite", "every helper taking a float64 reports success (nil error) only by returning the result of another float helper applied to a value computed from that argument, or on paths where math.IsNaN(argument) tested false and the argument is bounded from above (IsInf false or a comparison with a constant): no shortcut returns an amount for NaN or +Inf; when the argument is folded into another value before it is handed on (a product), it tested not negative first")
 	r.NotDec = append(r.NotDec, "decimal-exponent semantics of ParseZCN/ToZCN (library arithmetic)", "format-then-parse round trip")
 	r.Assume = append(r.Assume, "Coin(e.IntPart()) in ParseZCN: range established through the decimal API (Sign()==-1 and GreaterThan(maxDecimal) rejections must hold on every path), not through integer guards")
 	arith(r)
@@ -689,6 +689,28 @@ func argFinite(r *engine.Run, rule string) {
 							n++
 							r.Check(dep, rule, o.next(fn(f)+"|"+p.Name()+"|delegates"), r.P.Pos(ret.Pos()), "returns the result of "+fn(c.Call.StaticCallee())+" applied to a value computed from the argument",
 								"the result comes from a float helper that is not given a value computed from this argument")
+							// the sign of the argument itself is lost in a product: it must have been tested here
+							direct := false
+							for _, a := range c.Call.Args {
+								if a == ssa.Value(p) {
+									direct = true
+								}
+							}
+							if !direct {
+								nonNeg := false
+								if facts, ok := engine.FactsOn(f, ret.Block()); ok {
+									for _, ft := range facts {
+										if (ft.Kind == "lt" || ft.Kind == "le") && ft.A == ssa.Value(p) && !ft.Truth {
+											if k, isK := ft.B.(*ssa.Const); isK && k.Value != nil && k.Value.ExactString() == "0" {
+												nonNeg = true
+											}
+										}
+									}
+								}
+								n++
+								r.Check(nonNeg, rule, o.next(fn(f)+"|"+p.Name()+"|sign"), r.P.Pos(ret.Pos()), "the argument tested not negative before it enters the product handed on",
+									"a negative float argument is not rejected before it is folded into another value (a zero coin times a negative factor is -0, which passes the callee's sign test): the helper returns an amount for a negative argument")
+							}
 						}
 					}
 					continue
